@@ -139,8 +139,54 @@ class Interp:
         self.forced = None                 # (guard that was forced to hold, loc) once that happened
         self._exit_occ = {}
         self.exit_ids = []                 # (index into self.guards, loc, occurrence at that loc) of every data-dependent early exit met
+        # model-point mode (one region of the input space at a time): symbols have numeric stand-ins that DECIDE data-dependent comparisons,
+        # sorts and searches, while all arithmetic stays symbolic; every decision taken is logged, so a result holds on the region where the
+        # logged decisions keep their outcome
+        self.model = None                  # Atom -> float
+        self.model_decisions = []          # (op, lhs E, rhs E, outcome)
+        self.model_bounds = {}             # variate Atom -> [("lo" | "hi", E)] implied by the decisions that involve it
+        self.model_u = {}                  # (draw call number, flat index) -> float: stand-ins for uniform variates, by position
+        self.model_uatoms = {}             # variate Atom -> (draw call number, flat index)
         from . import npmodel
         self.np = npmodel.NumpyModel(self)
+
+    # ------------------------------------------------------------------ model-point mode
+    def model_val(self, e):
+        """numeric value of a symbolic scalar at the model point (None when it has symbols the model does not fix)"""
+        if self.model is None:
+            return None
+        try:
+            e = cell(e)
+            if not isinstance(e, E):
+                return None
+            v = alg.evalf(e, dict(self.model), strict=True)
+            return v if v == v and abs(v) != float("inf") else None
+        except (alg.AlgError, ZeroDivisionError, OverflowError, ValueError, TypeError):
+            return None
+
+    def model_bound(self, u_e, kind, e):
+        (a,) = alg.atoms_of(u_e)
+        self.model_bounds.setdefault(a, []).append((kind, lift(e)))
+
+    def is_variate(self, e):
+        if not (isinstance(e, E) and self.model_uatoms):
+            return False
+        ats = alg.atoms_of(e)
+        return len(ats) == 1 and next(iter(ats)) in self.model_uatoms and e == E.atom(next(iter(ats)))
+
+    def model_compare(self, name, ea, eb):
+        """outcome of ea <name> eb at the model point, or None (not decidable there / too close to call)"""
+        x, y = self.model_val(ea), self.model_val(eb)
+        if x is None or y is None:
+            return None
+        if abs(x - y) <= 1e-12 * max(1.0, abs(x), abs(y)):
+            return None
+        r = {"Eq": False, "NotEq": True, "Lt": x < y, "LtE": x < y, "Gt": x > y, "GtE": x > y}[name]
+        self.model_decisions.append((name, ea, eb, r))
+        for u, other, less in ((ea, eb, x < y), (eb, ea, y < x)):
+            if self.is_variate(u) and not any(a_ in self.model_uatoms for a_ in alg.atoms_of(other, deep=True)):
+                self.model_bound(u, "hi" if less else "lo", other)
+        return r
 
     # ------------------------------------------------------------------ helpers
     def loc(self, node, env=None):
@@ -1435,6 +1481,12 @@ class Interp:
                 return True
             if name == "NotEq" and ea == eb:
                 return False
+            if self.model is not None:
+                if ea == eb:
+                    return name in ("LtE", "GtE")
+                r = self.model_compare(name, ea, eb)
+                if r is not None:
+                    return r
             r = self._sign_compare(name, ea, eb)
             if r is not None:
                 return r
